@@ -31,6 +31,7 @@ import (
 	"github.com/nuts-foundation/nuts-node/discovery/log"
 	"github.com/nuts-foundation/nuts-node/vcr"
 	"github.com/nuts-foundation/nuts-node/vcr/credential"
+	"github.com/nuts-foundation/nuts-node/vcr/credential/store"
 	"github.com/nuts-foundation/nuts-node/vcr/holder"
 	"github.com/nuts-foundation/nuts-node/vcr/pe"
 	"github.com/nuts-foundation/nuts-node/vcr/signature/proof"
@@ -504,7 +505,16 @@ func (u *clientUpdater) updateService(ctx context.Context, service ServiceDefini
 		// it won't be returned in a search if invalid
 		// the validator will set the validated flag to true when it's valid
 		// it'll also remove it from the store if it's invalidated later
-		if record, err := u.store.add(service.ID, presentation, seed, curr.timestamp); err != nil {
+		record, err := u.store.add(service.ID, presentation, seed, curr.timestamp)
+		if rejected := (store.RejectedError{}); errors.As(err, &rejected) {
+			// The presentation itself can't be stored (e.g. it contains a credential with the ID of another credential this node knows):
+			// trying again won't help. Skip it, otherwise the entries registered after it would never be processed.
+			log.Logger().WithError(err).
+				WithField("discoveryService", service.ID).
+				Warnf("Ignoring presentation from Discovery Service that can't be stored (id=%s)", presentation.ID)
+			continue
+		}
+		if err != nil {
 			return fmt.Errorf("failed to store presentation (service=%s, id=%s): %w", service.ID, presentation.ID, err)
 		} else if err = u.verifier(service, presentation); err == nil {
 			// valid, immediately activate
